@@ -8,3 +8,5 @@ open UtilModel UtilModel.Routine
 #print axioms UtilModel.Routine.survivor_unique
 #print axioms UtilModel.Routine.step_k4
 #print axioms UtilModel.Routine.survivor_state
+#print axioms UtilModel.Routine.C05a_obs
+#print axioms UtilModel.Routine.exited_cancelled
